@@ -1,5 +1,6 @@
 import GorumsV.Props.NetCall
 import GorumsV.Props.NodeConnP
+import GorumsV.Props.MgrCloseP
 import GorumsV.Generated.Exprs
 /-!
   The parameters of the composite models as the tree determines them (definitions only: the obligations that
@@ -34,5 +35,8 @@ def netParams (handler : Net.NodeId → Net.Payload → Chan.Resp) : Net.Params 
 def nodeConnParams : NodeConn.Params :=
   { checksClosed := Generated.node_dialChecksClosed, closesOld := Generated.node_dialClosesOld,
     lockedDial := Generated.node_dialLocked, closeCloses := Generated.node_closeCloses }
+
+/-- `Manager.Close` over the pool as the tree has it -/
+def mgrCloseParams : MgrClose.Params := { node := nodeConnParams, reachesAll := Generated.mgr_closeReachesEveryNode }
 
 end GorumsV.Tie.Tree
